@@ -295,6 +295,15 @@ def scenario_cases(seed, tier):
             "ref": {"jobs": [duB], "pick": ["job", 0]},
             "alts": [{"label": "after a program with the same DiscreteUniform draw inside a branch", "hashseed": 0, "jobs": [duA, duB], "pick": ["job", 1]}]},
             "features": ["scenario:conditional-draw-then-same-draw"], "text": duB["text"]})
+        # (x) --invariants over several benchmarks in one invocation, one probabilistic (identifier E(x)) and one deterministic (identifier x)
+        m1, m2 = r.choice([(2, 6), (3, 5), (2, 4)])
+        iA = f"x = 1\ny = 1\nwhile true:\n    x = {m1}*x {{1/2}} {m2}*x\n    y = 2*y\nend\n"
+        iB = f"x = 1\ny = 1\nwhile true:\n    x = 2*x\n    y = 4*y\nend\n"
+        out.append({"id": f"scn-cliinv-{cs}", "scenario": {
+            "ref": {"jobs": [{"id": "cli-inv-single", "cli": {"files": [iB], "goals": ["E(x)", "E(y)"], "invariants": True}}], "pick": ["cli_blocks", 0]},
+            "alts": [{"label": "polar.py A.prob B.prob --invariants (A probabilistic, B deterministic)", "hashseed": 0,
+                      "jobs": [{"id": "cli-inv-multi", "cli": {"files": [iA, iB], "goals": ["E(x)", "E(y)"], "invariants": True}}], "pick": ["cli_blocks", 1]}]},
+            "features": ["scenario:cli-invariants-several-benchmarks"], "text": iB})
         # (ix) two programs that reuse variable names for different roles around functional assignments
         f1 = r.choice(["Sin", "Cos"])
         faA = {"id": "A-fa", "text": f"u = 0\ns = 0\ny = 0\nwhile true:\n    u = Uniform(0, 2)\n    s = {f1}(u)\n    y = y + s\nend\n", "goals": [{"s": 1}, {"y": 1}],
